@@ -600,6 +600,14 @@ def flatten_spellings(tree: ast.AST):
                 if not (isinstance(blk, list) and blk and isinstance(blk[0], ast.stmt)):
                     continue
                 for k, st in enumerate(blk):
+                    # q.extend(E for T in IT)  is  for T in IT: q.append(E)
+                    if isinstance(st, ast.Expr) and isinstance(st.value, ast.Call) and isinstance(st.value.func, ast.Attribute) and st.value.func.attr == "extend" and len(st.value.args) == 1 and not st.value.keywords \
+                            and isinstance(st.value.args[0], (ast.GeneratorExp, ast.ListComp)) and len(st.value.args[0].generators) == 1 and not st.value.args[0].generators[0].ifs:
+                        g_ = st.value.args[0]
+                        app = ast.Expr(value=ast.Call(func=ast.Attribute(value=st.value.func.value, attr="append", ctx=ast.Load()), args=[g_.elt], keywords=[]))
+                        blk[k] = ast.copy_location(ast.For(target=g_.generators[0].target, iter=g_.generators[0].iter, body=[app], orelse=[], type_comment=None), st)
+                        ast.fix_missing_locations(blk[k])
+                        continue
                     if isinstance(st, ast.Expr) and isinstance(st.value, ast.Call) and isinstance(st.value.func, ast.Attribute) and st.value.func.attr == "sort" and not st.value.args and not st.value.keywords \
                             and isinstance(st.value.func.value, ast.Name) and st.value.func.value.id in local:
                         n_ = st.value.func.value.id
